@@ -2,8 +2,8 @@ package c16
 
 import (
 	"fmt"
-	"runtime/debug"
 	"net"
+	"runtime/debug"
 	"sync/atomic"
 	"time"
 
@@ -43,7 +43,6 @@ func init() {
 		},
 	})
 }
-
 
 func runMconn(c *core.Ctx) {
 	r := c.Rng
@@ -106,7 +105,7 @@ func runMconn(c *core.Ctx) {
 		atomic.StoreInt32(&trouble, 1)
 		c.Count("peer_stopped_by_reactor", 1)
 		go func() {
-			server.Stop() // Switch.StopPeerForError stops the peer's connection
+			server.Stop()                     // Switch.StopPeerForError stops the peer's connection
 			time.Sleep(50 * time.Millisecond) // let recvRoutine drain what is already buffered (observation window, not a verdict)
 			select {
 			case errored <- struct{}{}:
